@@ -149,7 +149,7 @@ fn main() {
                 t.reset(reset_event(&sys, fl));
                 for _ in 0..len {
                     let now = seq(&sys.e) as i64;
-                    let dt = *pick(&mut r, &[0i64, 0, 0, 1, 1, 2, 3, 7]);
+                    let dt = if r.gen_ratio(1, 25) { 3000 } else { *pick(&mut r, &[0i64, 0, 0, 1, 1, 2, 3, 7]) };
                     let holder = sys.holder();
                     // authorizers: mostly the interesting parties, sometimes arbitrary subsets
                     let mut auth = subset(&mut r, &ACCTS);
